@@ -11,7 +11,7 @@ Quantifier of the theorems: all strings; all values of the stated fragment `Valu
 What is *not* here (tied by correspondence only, see NOTES-C09.md): the real nom automaton, the streaming decoder
 (chunk-insensitivity), f64 ↔ text.
 -/
-import SwimVerif.Proofs.ReconStruct
+import SwimVerif.Proofs.ReconStyles
 
 set_option linter.unusedVariables false
 namespace SwimVerif.Recon
@@ -59,19 +59,19 @@ theorem C09_blob_roundtrip (bs : List Nat) (hb : ∀ b ∈ bs, b < 256) (rest : 
 
 example : b64Encode [1, 2, 255] = "AQL/".toList := by decide
 
-/-! ## T2: parse ∘ print for the compact printer -/
+/-! ## T2: parse ∘ print for the three printers -/
 
-/-- **Faithful**: for every value of the fragment `Value.wf` (no floats; attribute names are identifiers; the three
-shapes the printers cannot express are excluded — see `Value.wf`), parsing what `print_recon_compact` writes gives the
-value back, integers re-kinded the way the parser kinds them (which Rust's `Value::eq` ignores).  Any fuel from
-`6 * size v` on is enough. -/
-theorem C09_parse_print_compact (v : Value) (hw : v.wf = true) (fuel : Nat) (hf : 6 * v.size ≤ fuel) :
-    parseFuel fuel (print .compact v) = .ok v.norm := parseFuel_print_compact v hw fuel hf
+/-- **Faithful**: for each of the three printers (`print_recon`, `print_recon_compact`, `print_recon_pretty`) and every
+value of the fragment `Value.wf` (no floats; attribute names are identifiers; the three shapes the printers cannot
+express are excluded — see `Value.wf`), parsing what the printer writes gives the value back, integers re-kinded the way
+the parser kinds them (which Rust's `Value::eq` ignores).  Any fuel from `6 * size v` on is enough. -/
+theorem C09_parse_print (st : Style) (v : Value) (hw : v.wf = true) (fuel : Nat) (hf : 6 * v.size ≤ fuel) :
+    parseFuel fuel (print st v) = .ok v.norm := parseFuel_print st v hw fuel hf
 
 /-- The same for `parse` itself (the function the driver runs against the real parser): its built-in fuel
 `12 * length + 6` is enough on printer output, because `size v ≤ 2 * length (print v) + 1`. -/
-theorem C09_parse_print_compact_parse (v : Value) (hw : v.wf = true) : parse (print .compact v) = .ok v.norm :=
-  parse_print_compact v hw
+theorem C09_parse_print_parse (st : Style) (v : Value) (hw : v.wf = true) : parse (print st v) = .ok v.norm :=
+  parse_print st v hw
 
 /-- A value of the fragment with attributes (with and without bodies), slots with `Extant` keys and values, text that
 needs quoting, a blob, integers of several kinds. -/
@@ -81,15 +81,15 @@ def exampleValue : Value :=
 
 example : exampleValue.wf = true ∧ 6 * exampleValue.size ≤ 200 := by decide
 example : print .compact exampleValue = "@tag(7)@b(k:true){\"two words\",:%AQL/,,-5}".toList := by decide
-example : parseFuel 200 (print .compact exampleValue) = .ok exampleValue.norm :=
-  C09_parse_print_compact _ (by decide) _ (by decide)
+example : print .std exampleValue = "@tag(7) @b(k: true) { \"two words\", : %AQL/, , -5 }".toList := by decide
+example : print .pretty exampleValue =
+    "@tag(7) @b(k: true) {\n    \"two words\",\n    : %AQL/,\n    ,\n    -5\n}".toList := by decide
+example : parseFuel 200 (print .pretty exampleValue) = .ok exampleValue.norm :=
+  C09_parse_print .pretty _ (by decide) _ (by decide)
 
-/-- **Stable**: what one print/parse cycle returns (`norm v`) is a fixed point of further cycles. -/
-theorem C09_fixpoint_compact (v : Value) (hw : v.wf = true) (fuel : Nat) (hf : 6 * v.size ≤ fuel) :
-    parseFuel fuel (print .compact v.norm) = .ok v.norm := fixpoint_compact v hw fuel hf
-
-theorem C09_fixpoint_compact_parse (v : Value) (hw : v.wf = true) : parse (print .compact v.norm) = .ok v.norm :=
-  parse_fixpoint_compact v hw
+/-- **Stable**: what one print/parse cycle returns (`norm v`) is a fixed point of further cycles, for each printer. -/
+theorem C09_fixpoint (st : Style) (v : Value) (hw : v.wf = true) : parse (print st v.norm) = .ok v.norm :=
+  parse_fixpoint st v hw
 
 example : exampleValue.norm ≠ exampleValue ∧ exampleValue.norm.norm = exampleValue.norm := by decide
 
@@ -134,10 +134,6 @@ theorem C09_parse_print_bare_attr_key_fails :
   · rfl
 
 /-! ## open (statement only) -/
-
-/-- The same for the standard and the pretty printer (white space, line breaks and indentation). -/
-def C09_parse_print_std_pretty_open : Prop :=
-  ∀ (st : Style) (v : Value), v.wf = true → ∀ fuel, 6 * v.size ≤ fuel → parseFuel fuel (print st v) = .ok v.norm
 
 /-- Floats: the shortest decimal of a finite float, written in either of the two formats (`ryu`, `{:e}`), is read back
 as the same decimal. -/
